@@ -116,6 +116,23 @@ INFO = {
              "slowly moving body (marker displacement < 1e-8 + 1e-5 |x| per evaluation), checkpoint taken while the live stencil is stale"),
     "C19d": ("3D Laplacian filter: z stencil written with the opposite sign of the x and y stencils",
              "odd filter order (1, 3), field varying along z"),
+    # ---- round 5 (seeded/<id>e)
+    "C02e": ("domain set-up, 3D: the z cell centres of position_field are built from y_range (copy-paste in a de-duplicating helper); z_range, dx and all kernels untouched",
+             "3D simulator with nz != ny, analytic fields written on the simulator's own position_field"),
+    "C04e": ("3D simulator builds the vorticity filter with filter_flux_buffer=buffer_scalar_field and field_buffer=buffer_vector_field[0] (the same memory)",
+             "3D Navier-Stokes step with filter_vorticity=True (any filter setting)"),
+    "C05e": ("domain set-up, 3D: z_range = y_range * nz / nx instead of x_range * nz / nx",
+             "3D simulator with ny != nx"),
+    "C07e": ("2D vector spreading rewritten as a fancy-indexed `flat[idx] += F * w` over all markers (repeated indices: only the last contribution survives)",
+             "2D, n_components=2, at least two markers with the same nearest cell (clustered / duplicated markers, Lagrangian spacing below dx)"),
+    "C12e": ("3D divergence kernel: the z term takes its central difference along x",
+             "vector field whose z component varies differently along x and z"),
+    "C14e": ("3D fast-diagonalisation vector_field_solve reads the right-hand side of the z component from the y component",
+             "3D simulator with poisson_solver_type='fast_diagonalisation', vorticity whose y and z components differ"),
+    "C15e": ("3D vector advection time step passes each component as its own flux buffer (`the flux kernels accumulate anyway`): output = neighbour-read input",
+             "field_type='vector' 3D ENO3 advection (PassiveTransportFlowSimulator 3D vector), non-uniform field, non-zero velocity"),
+    "C20e": ("SSP-RK3 stretching kernel: after merging two aliases the third-stage flux is evaluated on the step's input vorticity",
+             "SSP-RK3 stretching with a velocity whose stretching operator is not nilpotent and a step large enough for the A^2 term"),
 }
 
 
@@ -133,7 +150,7 @@ def main():
                 ev.update(json.load(open(os.path.join(d, evn))))
         meta = {
             "breaks_property": sid[:3],
-            "round": 4 if sid.endswith("d") else 3 if sid.endswith("c") else 2 if sid.endswith("b") else 1,
+            "round": 5 if sid.endswith("e") else 4 if sid.endswith("d") else 3 if sid.endswith("c") else 2 if sid.endswith("b") else 1,
             "change": what,
             "files": files,
             "needs_to_manifest": needs,
